@@ -320,7 +320,7 @@ Proof.
     repeat (progress (xstep; fld_off; rewrite ?LC, ?LI, ?LM, ?LF;
       rewrite ?(wrap_U32_fld _ OC), ?(wrap_U32_fld _ OI), ?(wrap_U32_fld _ OM), ?(wrap_U32_fld _ OF);
       rewrite ?(wrap_I32_fld _ OC), ?(wrap_I32_fld _ OI), ?(wrap_I32_fld _ OM), ?(wrap_I32_fld _ OF)));
-    match goal with |- context [negb (?x =? 0)] => destruct (x =? 0) end; reflexivity.
+    match goal with |- context [negb (?x =? 0)] => destruct (x =? 0) end; xstep; reflexivity.
 Qed.
 
 (* ------------------------------------------------------------------ uc_cput *)
